@@ -558,7 +558,7 @@ func run(c *lib.Ctx) error {
 	long30 := lib.GenAsset{Name: "g_long30", Reps: []lib.GenRep{lib.VideoRep("V1", 90000, 3000, []uint64{360000, 2700000, 360000})}}
 	layouts := []lib.GenAsset{long30}
 	for _, l := range lib.GenCatalogue() {
-		if l.Class == "ok" && (c.Thorough() || l.Asset.Name == "g_irr7_12800" || l.Asset.Name == "g_avgfirst_tl" || l.Asset.Name == "g_sub_15360" || l.Asset.Name == "g_ntsc_multi") {
+		if l.Class == "ok" && (c.Thorough() || l.Asset.Name == "g_irr7_12800" || l.Asset.Name == "g_avgfirst_tl" || l.Asset.Name == "g_mixed_n" || l.Asset.Name == "g_mixed_n2" || l.Asset.Name == "g_sub_15360" || l.Asset.Name == "g_ntsc_multi") {
 			layouts = append(layouts, l.Asset)
 		}
 	}
